@@ -60,4 +60,67 @@ theorem poleWeight_eq (z lam : K) (hz : z * z + lam * z + 1 = 0) : (1 - z) * (1 
   field_simp
   linear_combination (-1 : K) * hz
 
+/-! ### two poles (order 4): the second pass runs on the output of the first -/
+
+/-- interior samples `2 ≤ k ≤ n−3` -/
+theorem twoPole_interior (z1 z2 l1 l2 c1 c2 : K) (h1 : z1 * z1 + l1 * z1 + 1 = 0)
+    (h2 : z2 * z2 + l2 * z2 + 1 = 0) (n : Nat) (s : Nat → K) (k : Nat) (hk : 2 ≤ k) (hk' : k + 3 ≤ n) :
+    let c := onePole z2 c2 n (onePole z1 c1 n s)
+    c (k - 2) + (l1 + l2) * c (k - 1) + (2 + l1 * l2) * c k + (l1 + l2) * c (k + 1) + c (k + 2) = s k := by
+  intro c
+  have u0 := onePole_interior z1 l1 c1 h1 n s k (by omega) (by omega)
+  have a := onePole_interior z2 l2 c2 h2 n (onePole z1 c1 n s) (k - 1) (by omega) (by omega)
+  have b := onePole_interior z2 l2 c2 h2 n (onePole z1 c1 n s) k (by omega) (by omega)
+  have d := onePole_interior z2 l2 c2 h2 n (onePole z1 c1 n s) (k + 1) (by omega) (by omega)
+  have e1 : k - 1 - 1 = k - 2 := by omega
+  have e2 : k - 1 + 1 = k := by omega
+  have e3 : k + 1 - 1 = k := by omega
+  have e4 : k + 1 + 1 = k + 2 := by omega
+  rw [e1, e2] at a
+  rw [e3, e4] at d
+  show onePole z2 c2 n (onePole z1 c1 n s) (k - 2) + (l1 + l2) * onePole z2 c2 n (onePole z1 c1 n s) (k - 1)
+      + (2 + l1 * l2) * onePole z2 c2 n (onePole z1 c1 n s) k
+      + (l1 + l2) * onePole z2 c2 n (onePole z1 c1 n s) (k + 1) + onePole z2 c2 n (onePole z1 c1 n s) (k + 2) = s k
+  linear_combination u0 + a + l1 * b + d
+
+/-- the last two samples, with the mirrored knots `c[n] = c[n−2]`, `c[n+1] = c[n−3]` -/
+theorem twoPole_last (z1 z2 l1 l2 c1 c2 : K) (h1 : z1 * z1 + l1 * z1 + 1 = 0)
+    (h2 : z2 * z2 + l2 * z2 + 1 = 0) (hz1 : z1 * z1 - 1 ≠ 0) (hz2 : z2 * z2 - 1 ≠ 0)
+    (n : Nat) (hn : 4 ≤ n) (s : Nat → K) :
+    let c := onePole z2 c2 n (onePole z1 c1 n s)
+    (c (n - 4) + (l1 + l2) * c (n - 3) + (2 + l1 * l2) * c (n - 2) + (l1 + l2) * c (n - 1) + c (n - 2) = s (n - 2)) ∧
+    (c (n - 3) + (l1 + l2) * c (n - 2) + (2 + l1 * l2) * c (n - 1) + (l1 + l2) * c (n - 2) + c (n - 3) = s (n - 1)) := by
+  intro c
+  obtain ⟨m, rfl⟩ : ∃ m, n = m + 4 := ⟨n - 4, by omega⟩
+  have ulast := onePole_last z1 l1 c1 h1 hz1 (m + 4) (by omega) s
+  have uint := onePole_interior z1 l1 c1 h1 (m + 4) s (m + 2) (by omega) (by omega)
+  have clast := onePole_last z2 l2 c2 h2 hz2 (m + 4) (by omega) (onePole z1 c1 (m + 4) s)
+  have c2' := onePole_interior z2 l2 c2 h2 (m + 4) (onePole z1 c1 (m + 4) s) (m + 2) (by omega) (by omega)
+  have c1' := onePole_interior z2 l2 c2 h2 (m + 4) (onePole z1 c1 (m + 4) s) (m + 1) (by omega) (by omega)
+  have e0 : m + 4 - 4 = m := by omega
+  have e1 : m + 4 - 3 = m + 1 := by omega
+  have e2 : m + 4 - 2 = m + 2 := by omega
+  have e3 : m + 4 - 1 = m + 3 := by omega
+  have e4 : m + 2 - 1 = m + 1 := by omega
+  have e5 : m + 2 + 1 = m + 3 := by omega
+  have e6 : m + 1 - 1 = m := by omega
+  have e7 : m + 1 + 1 = m + 2 := by omega
+  simp only [e2, e3] at ulast clast
+  simp only [e4, e5] at uint c2'
+  simp only [e6, e7] at c1'
+  simp only [e0, e1, e2, e3]
+  constructor
+  · show onePole z2 c2 (m + 4) (onePole z1 c1 (m + 4) s) m
+        + (l1 + l2) * onePole z2 c2 (m + 4) (onePole z1 c1 (m + 4) s) (m + 1)
+        + (2 + l1 * l2) * onePole z2 c2 (m + 4) (onePole z1 c1 (m + 4) s) (m + 2)
+        + (l1 + l2) * onePole z2 c2 (m + 4) (onePole z1 c1 (m + 4) s) (m + 3)
+        + onePole z2 c2 (m + 4) (onePole z1 c1 (m + 4) s) (m + 2) = s (m + 2)
+    linear_combination uint + c1' + l1 * c2' + clast
+  · show onePole z2 c2 (m + 4) (onePole z1 c1 (m + 4) s) (m + 1)
+        + (l1 + l2) * onePole z2 c2 (m + 4) (onePole z1 c1 (m + 4) s) (m + 2)
+        + (2 + l1 * l2) * onePole z2 c2 (m + 4) (onePole z1 c1 (m + 4) s) (m + 3)
+        + (l1 + l2) * onePole z2 c2 (m + 4) (onePole z1 c1 (m + 4) s) (m + 2)
+        + onePole z2 c2 (m + 4) (onePole z1 c1 (m + 4) s) (m + 1) = s (m + 3)
+    linear_combination ulast + 2 * c2' + l1 * clast
+
 end Mahotas.C18
